@@ -84,7 +84,11 @@ impl CommandAnalyzer {
             .parse_and_cache_all_files(project_path, verbose)?;
 
         // Extract commands from cached ASTs
-        let file_paths: Vec<PathBuf> = self.ast_cache.keys().cloned().collect();
+        // Sort the paths: the cache is a HashMap, and the order in which files are
+        // analysed fixes the order of commands and events in the generated output
+        // (and in the cache hash), which must not change from run to run.
+        let mut file_paths: Vec<PathBuf> = self.ast_cache.keys().cloned().collect();
+        file_paths.sort();
         let mut commands = Vec::new();
         let mut type_names_to_discover = HashSet::new();
 
